@@ -372,7 +372,7 @@ func TestC08_Save(t *testing.T) {
 			if r.Panicked() || r.Signaled || r.TimedOut || (r.ExitCode != 0 && r.ExitCode != 1) {
 				t.Fatalf("wtf %+q crashed (exit %d):\n%s\n%s", args, r.ExitCode, clip(r.Stdout), clip(r.Stderr))
 			}
-			if !strings.Contains(r.Stdout, okLine) {
+			if !saidSaved(r.Stdout, okLine) {
 				// a reported failure must leave the earlier entries intact
 				if msg := compareNotebookIfAny(h.Notebook(), model); msg != "" {
 					t.Fatalf("after a save that reported failure (%s): %s\n steps=%v", clip(r.Stdout), msg, steps)
